@@ -8,6 +8,7 @@ from checks import treelib as T
 class C02(Spec):
     pid = 'C02'
     component = 'tree'
+    extra_models = ('treel',)   # pointer-level model (TreeLinksModel.v): must print the same trace
     driver = 'tree'
     lib_srcs = ['bintree.c', 'rbtree.c']
     header_words = ('keys', 'kind', 'cmpmode')
